@@ -234,6 +234,8 @@ var ivCases = []ivCase{
 	ivc[IvKeyBin]("array-key"), ivc[IvKeyStr]("struct-value-key"), ivc[IvKeyPtrI]("pointer-to-int-key"), ivc[IvKeyIface]("interface-key"),
 	ivc[IvPtrReq]("required-pointer-scalar"), ivc[IvPtrDef]("default-pointer-scalar"), ivc[IvPtrElem]("pointer-scalar-element"), ivc[IvPtrVal]("pointer-scalar-map-value"),
 	ivc[IvPtrPtr]("pointer-to-pointer-struct"), ivc[IvPtrPtrI]("pointer-to-pointer-scalar"), ivc[IvPtrSlice]("pointer-to-slice"), ivc[IvPtrMap]("pointer-to-map"), ivc[IvElemPP]("element-pointer-to-pointer"),
+	ivc[IvPtrBinEl]("pointer-to-binary-list-element"), ivc[IvPtrBinSe]("pointer-to-binary-set-element"), ivc[IvPtrBinMv]("pointer-to-binary-map-value"),
+	ivc[IvPtrStrEl]("pointer-to-string-list-element"), ivc[IvPtrBinIn]("pointer-to-binary-element-nested"),
 	ivc[IvDupID]("duplicate-id"), ivc[IvIDText]("non-numeric-id"), ivc[IvIDBig]("id-65536"), ivc[IvIDNeg]("negative-id"), ivc[IvIDEmpty]("empty-id"),
 	ivc[IvReqBad]("unknown-requiredness"), ivc[IvOptBad]("unknown-option"), ivc[IvNoCopyI]("nocopy-on-int"), ivc[IvNoCopy2]("duplicate-nocopy"), ivc[IvNoCopyL]("nocopy-on-list"),
 	ivc[IvOuterP]("nested-invalid-via-pointer"), ivc[IvOuterL]("nested-invalid-via-list"), ivc[IvOuterM]("nested-invalid-via-map-value"),
@@ -349,3 +351,21 @@ func VerifInvalidArg() {
 }
 
 func VerifSetupInvalid() { EncodedSize(ops_Leaf.New()) }
+
+type (
+	IvPtrBinEl struct {
+		A []*[]byte `frugal:"1,default,list<binary>"`
+	}
+	IvPtrBinSe struct {
+		A []*[]byte `frugal:"1,default,set<binary>"`
+	}
+	IvPtrBinMv struct {
+		A map[string]*[]byte `frugal:"1,default,map<string:binary>"`
+	}
+	IvPtrStrEl struct {
+		A []*string `frugal:"1,default,list<string>"`
+	}
+	IvPtrBinIn struct {
+		A []IvPtrBinEl `frugal:"1,default,list<IvPtrBinEl>"`
+	}
+)
